@@ -869,7 +869,7 @@ def make_script(rng, lang):
             'seed': rng.randrange(1 << 30), 'progs': progs}
 
 
-def run_script(rig, script, timeout=120):
+def run_script(rig, script, timeout=300):
     """Run one scripted session through the real hephaestus.main()."""
     h = rig.h
     tdir = rig.new_session_dir('s')
@@ -1073,7 +1073,7 @@ def cell_cli(cell):
     p = subprocess.Popen(cmd, cwd=scratch, env=env, stdout=subprocess.PIPE, stderr=subprocess.PIPE,
                          start_new_session=True)
     try:
-        so, se = p.communicate(timeout=cell.get('timeout', 780))
+        so, se = p.communicate(timeout=cell.get('timeout', 900))
     except subprocess.TimeoutExpired:
         # wall-clock watchdog, never a verdict; the worker pool must go too
         with contextlib.suppress(OSError):
@@ -1177,7 +1177,7 @@ def probe_src_resolution():
     d = common.scratch('C15-probe')
     try:
         p = subprocess.run([common.PY, '-c', code], env=env, cwd=d, stdout=subprocess.PIPE,
-                           stderr=subprocess.STDOUT, timeout=120)
+                           stderr=subprocess.STDOUT, timeout=600)
         m = re.search(r'ARGS=(.*)', p.stdout.decode('utf-8', 'replace'))
         return m.group(1).strip() if m else 'unresolved: ' + p.stdout.decode('utf-8', 'replace')[-200:]
     except Exception as e:
@@ -1216,7 +1216,7 @@ def main(prop, tier):
                                            'seed': common.h32(seed, 'ses', lang, j), 'runid': runid}))
     # one fan-out: every cell carries its entry point
     all_cells = [dict(c, _fn=fn) for fn, c in cells]
-    results = common.run_cells(TARGET + 'cell_any', all_cells, 'C15-%s' % runid, timeout=900)
+    results = common.run_cells(TARGET + 'cell_any', all_cells, 'C15-%s' % runid, timeout=1500)
     agg.add_cells(results, allow_timeouts=0)
     for d in glob.glob(os.path.join(TMPBASE, 'vfc15_%s_*' % runid)):
         shutil.rmtree(d, ignore_errors=True)
